@@ -120,23 +120,34 @@ theorem gapBlock_ok (log : List Msg) (m : C02.GapSt) (blk : List Msg) (h : (C02.
     | none => simp [C02.gapBlock, hr] at h
     | some l =>
       refine ⟨b, bs, l, rfl, hr, ?_⟩
-      by_cases hc : (match m.last with | some l => C02.succIn log l == some b | none => false) = true
-      · have e : C02.gapBlock log m (b :: bs) = { m with last := some l } := by
-          simp only [C02.gapBlock, hr]; rw [if_pos hc]
-        rw [e]
-        refine ⟨rfl, Or.inl ⟨?_, rfl⟩⟩
-        cases hl : m.last with
-        | none => simp [hl] at hc
-        | some l0 => exact ⟨l0, rfl, by simpa [hl] using hc⟩
-      · by_cases hrs : (match m.from? with | some f => C02.firstFrom log f == some b | none => false) = true
-        · have e : C02.gapBlock log m (b :: bs) = { m with from? := none, last := some l } := by
-            simp only [C02.gapBlock, hr]; rw [if_neg hc, if_pos hrs]
-          rw [e]
-          refine ⟨rfl, Or.inr ⟨?_, rfl⟩⟩
-          cases hfm : m.from? with
-          | none => simp [hfm] at hrs
-          | some f => exact ⟨f, rfl, by simpa [hfm] using hrs⟩
-        · simp only [C02.gapBlock, hr] at h; rw [if_neg hc, if_neg hrs] at h; simp at h
+      have second : (∀ l0, m.last = some l0 → C02.succIn log l0 ≠ some b) →
+          (C02.gapBlock log m (b :: bs)).last = some l ∧
+          ((∃ f, m.from? = some f ∧ C02.firstFrom log f = some b) ∧ (C02.gapBlock log m (b :: bs)).from? = none) := by
+        intro hno
+        cases hfm : m.from? with
+        | none =>
+          cases hl : m.last with
+          | none => simp [C02.gapBlock, hr, hl, hfm] at h
+          | some l0 => have := hno l0 hl; simp [C02.gapBlock, hr, hl, hfm, this] at h
+        | some f =>
+          by_cases hs : C02.firstFrom log f = some b
+          · cases hl : m.last with
+            | none => exact ⟨by simp [C02.gapBlock, hr, hl, hfm, hs], ⟨f, rfl, hs⟩, by simp [C02.gapBlock, hr, hl, hfm, hs]⟩
+            | some l0 =>
+              have := hno l0 hl
+              exact ⟨by simp [C02.gapBlock, hr, hl, hfm, hs, this], ⟨f, rfl, hs⟩, by simp [C02.gapBlock, hr, hl, hfm, hs, this]⟩
+          · cases hl : m.last with
+            | none => simp [C02.gapBlock, hr, hl, hfm, hs] at h
+            | some l0 => have := hno l0 hl; simp [C02.gapBlock, hr, hl, hfm, hs, this] at h
+      cases hl : m.last with
+      | none =>
+        obtain ⟨a1, a2⟩ := second (by intro l0 h0; rw [hl] at h0; cases h0)
+        exact ⟨a1, Or.inr a2⟩
+      | some l0 =>
+        by_cases hs : C02.succIn log l0 = some b
+        · exact ⟨by simp [C02.gapBlock, hr, hl, hs], Or.inl ⟨⟨l0, rfl, hs⟩, by simp [C02.gapBlock, hr, hl, hs]⟩⟩
+        · obtain ⟨a1, a2⟩ := second (by intro l1 h1; rw [hl] at h1; cases h1; exact hs)
+          exact ⟨a1, Or.inr a2⟩
 
 /-- continuing: no pending (re)start, `l` was delivered last -/
 theorem gap_cont (log : List Msg) : ∀ (post : List Item) (m : C02.GapSt) (l : Int), m.from? = none → m.last = some l →
